@@ -13,6 +13,7 @@ A table that is not disciplined names the sites (file:line); the race reports th
 are the replay. Open findings (known-findings.jsonl, keyed by entry/site key) are exempted in the
 table, must still reproduce under the race detector and are printed as KNOWN-FINDING.
 """
+import time
 import collections, concurrent.futures, json, os, re, shutil, subprocess, time
 from . import common as C
 
@@ -191,7 +192,11 @@ def build_extractor():
     os.makedirs(C.BIN, exist_ok=True)
     out = os.path.join(C.BIN, "lockfacts")
     with C.Lock("go"):
-        rc, txt = C.sh(["go", "build", "-o", out, "."], cwd=TOOL, env=C.GOENV, timeout=600)
+        for attempt in range(3):
+            rc, txt = C.sh(["go", "build", "-o", out, "."], cwd=TOOL, env=C.GOENV, timeout=600)
+            if rc == 0:
+                break
+            time.sleep(3)
     return rc == 0, txt, out
 
 
@@ -203,7 +208,11 @@ def run_extractor(binary, extra_exempt=()):
     if extra_exempt:
         cmd += ["-exempt", ",".join(extra_exempt)]
     with C.Lock("gen"):
-        rc, txt = C.sh(cmd, cwd=TOOL, env=C.GOENV, timeout=600)
+        for attempt in range(3):
+            rc, txt = C.sh(cmd, cwd=TOOL, env=C.GOENV, timeout=600)
+            if rc == 0 or ("could not import" not in txt and "no such file or directory" not in txt):
+                break
+            time.sleep(3)      # the shared Go build cache was trimmed under go/types' importer: try again
     facts = None
     if rc == 0 and os.path.exists(fj):
         facts = json.load(open(fj))
